@@ -218,28 +218,80 @@ func c18R2(h H) {
 		r.Check(should && okOrder, "R2", "gzip.(*ResponseFilterWriter).WriteHeader/decide-before-commit", fn.Pos(), "every response filter is consulted, and the compress/identity decision is final, before either underlying WriteHeader runs")
 	}
 	if fn := h.fn("R2", gzPkg, "(*ResponseFilterWriter).Write"); fn != nil {
-		yes := guardEdges(fn, true, func(v ssa.Value) bool { return readsField(v, "shouldCompress") })
-		no := guardEdges(fn, false, func(v ssa.Value) bool { return readsField(v, "shouldCompress") })
-		okAll, n := true, 0
-		allInstrs(fn, func(in ssa.Instruction) {
-			c := callOf(in)
-			if c == nil {
-				return
-			}
-			if f := c.StaticCallee(); f != nil && f.Name() == "Write" && strings.Contains(funcName(f), "gzipResponseWriter") {
-				n++
-				if !onlyVia(fn, in, yes) {
-					okAll = false
+		// decided as a table (E10): with the header written, the body goes to the gzip writer exactly when the
+		// decision was "compress", and to the wrapped writer otherwise
+		rfT := fn.Params[0].Type().(*types.Pointer).Elem()
+		var gzT types.Type = types.Typ[types.Int]
+		if st, ok := underlying(rfT).(*types.Struct); ok {
+			for i := 0; i < st.NumFields(); i++ {
+				if p, ok := st.Field(i).Type().(*types.Pointer); ok && strings.HasSuffix(p.Elem().String(), "gzipResponseWriter") {
+					gzT = p.Elem()
 				}
 			}
-			if c.IsInvoke() && c.Method.Name() == "Write" {
-				n++
-				if !onlyVia(fn, in, no) {
-					okAll = false
+		}
+		var wrapT types.Type = types.Typ[types.Int]
+		if st, ok := underlying(gzT).(*types.Struct); ok {
+			for i := 0; i < st.NumFields(); i++ {
+				if p, ok := st.Field(i).Type().(*types.Pointer); ok && strings.HasSuffix(p.Elem().String(), "ResponseWriterWrapper") {
+					wrapT = p.Elem()
 				}
 			}
-		})
-		r.Check(okAll && n >= 2, "R2", "gzip.(*ResponseFilterWriter).Write/route-by-decision", fn.Pos(), "body bytes go through the gzip stream exactly when the header said Content-Encoding: gzip, and untouched otherwise")
+		}
+		bad := ""
+		for _, compress := range []bool{true, false} {
+			raw := &aobj{name: "wrapped writer", typ: types.Typ[types.Int], f: map[string]aval{}}
+			wrap := &aobj{name: "wrapper", typ: wrapT, f: map[string]aval{"ResponseWriter": aiface{aptr{raw, ""}, types.Typ[types.Int]}}}
+			gz := &aobj{name: "gzip writer", typ: gzT, f: map[string]aval{"ResponseWriterWrapper": aptr{wrap, ""}, "statusCodeWritten": abool(true)}}
+			gz.in = func(o *aobj, path string, t types.Type) aval { return aunk{"gzip writer field " + path} }
+			rf := &aobj{name: "filter writer", typ: rfT, f: map[string]aval{"shouldCompress": abool(compress), "statusCodeWritten": abool(true), "gzipResponseWriter": aptr{gz, ""}}}
+			rf.in = func(o *aobj, path string, t types.Type) aval { return aunk{"filter writer field " + path} }
+			var went []string
+			who := func(v aval) *aobj {
+				if i, ok := v.(aiface); ok {
+					v = i.val
+				}
+				if p, ok := v.(aptr); ok {
+					return p.obj
+				}
+				return nil
+			}
+			env := &absEnv{noFork: true, maxSteps: 50000, globals: map[string]*aobj{}}
+			env.ext = func(callee string, args []aval) (aval, bool) {
+				switch {
+				case strings.HasSuffix(callee, "gzipResponseWriter).Write"):
+					went = append(went, "gzip")
+					return atuple{aint(3), anil{}}, true
+				case callee == "invoke:Write":
+					switch who(args[0]) {
+					case gz:
+						went = append(went, "gzip")
+					case raw:
+						went = append(went, "raw")
+					default:
+						went = append(went, "elsewhere")
+					}
+					return atuple{aint(3), anil{}}, true
+				case strings.HasSuffix(callee, "ResponseWriterWrapper).Write"):
+					went = append(went, "raw")
+					return atuple{aint(3), anil{}}, true
+				}
+				return nil, false
+			}
+			buf := newVals([]aval{aint(1), aint(2), aint(3)}, types.Typ[types.Uint8])
+			if _, und := env.run(fn, []aval{aptr{rf, ""}, buf}); und != "" {
+				bad = sprintf("decision compress=%v: undecided — %s", compress, und)
+				break
+			}
+			want := "raw"
+			if compress {
+				want = "gzip"
+			}
+			if len(went) != 1 || went[0] != want {
+				bad = sprintf("decision compress=%v: the body bytes go to %v, specification says once to the %s writer", compress, went, want)
+				break
+			}
+		}
+		r.Check(bad == "", "R2", "gzip.(*ResponseFilterWriter).Write/route-by-decision", fn.Pos(), "body bytes go through the gzip stream exactly when the header said Content-Encoding: gzip, and untouched otherwise", bad)
 	}
 	// nobody in package gzip sets Content-Length
 	bad := 0
